@@ -145,6 +145,85 @@ theorem deleteB_exact (σ : Schema) (s s' : St) (b : Bytes) (hI : Inv σ s)
       · exact hxgone
       · exact reach_removed hI' hsub hxgone hr
 
+/-! ### which errors `DeleteById` on A can return at all -/
+
+theorem cascadeOver_error {del : St → Bytes → Res} {f : EntA → FV} {id : Bytes} {skip : List Bytes} {e : Err} :
+    ∀ (cands : List Bytes) (st : St), cascadeOver del f id skip cands st = .error e → ∃ st' x, del st' x = .error e := by
+  intro cands
+  induction cands with
+  | nil => intro st h; simp [cascadeOver, List.foldlM_nil, pure, Except.pure] at h
+  | cons c rest ih =>
+    intro st h
+    simp only [cascadeOver, List.foldlM_cons, bind_error] at h
+    rcases h with h1 | ⟨st1, _, h2⟩
+    · split at h1
+      · cases h1
+      · split at h1
+        · exact ⟨st, c, h1⟩
+        · cases h1
+    · exact ih st1 h2
+
+theorem passA_error {σ : Schema} {del : List Bytes → St → Bytes → Res} {prog : List Bytes} {s : St} {id : Bytes} {e : Err}
+    (hF : passA σ del prog id s = .error e) : e = .notFound ∨ ∃ st x, del (mark prog id) st x = .error e := by
+  have hown : ∀ st, beforeDeleteA del prog id st .ownerIdx = .error e → e = .notFound := by
+    intro st h; rw [ownerDel_eq] at h; cases h
+  have hboss : ∀ st, beforeDeleteA del prog id st .bossIdx = .error e → e = .notFound := by
+    intro st h; rw [bossDel_eq] at h; cases h
+  have hcas : ∀ st, beforeDeleteA del prog id st .bossCascade = .error e → ∃ st x, del (mark prog id) st x = .error e :=
+    fun st h => cascadeOver_error _ st h
+  unfold passA orderA at hF
+  cases hdf : σ.depFirst
+  case true =>
+    simp only [hdf, if_true, List.foldlM_cons, List.foldlM_nil, bind_error] at hF
+    rcases hF with h0 | ⟨s0, h0, hF⟩
+    · simp [beforeDeleteA] at h0
+    · rcases hF with h1 | ⟨s1, h1, hF⟩
+      · exact Or.inl (hown _ h1)
+      · rcases hF with h2 | ⟨s2, h2, hF⟩
+        · exact Or.inl (hboss _ h2)
+        · rcases hF with h3 | ⟨s3, h3, hF⟩
+          · exact Or.inr (hcas _ h3)
+          · cases hF
+  case false =>
+    simp only [hdf, Bool.false_eq_true, if_false, List.foldlM_cons, List.foldlM_nil, bind_error] at hF
+    rcases hF with h1 | ⟨s1, h1, hF⟩
+    · exact Or.inl (hown _ h1)
+    · rcases hF with h2 | ⟨s2, h2, hF⟩
+      · exact Or.inl (hboss _ h2)
+      · rcases hF with h3 | ⟨s3, h3, hF⟩
+        · exact Or.inr (hcas _ h3)
+        · rcases hF with h4 | ⟨s4, h4, hF⟩
+          · simp [beforeDeleteA] at h4
+          · cases hF
+
+/-- `DeleteById` on A never returns the reference-exists error (nor null-not-allowed) -/
+theorem deleteA_error (σ : Schema) : ∀ (n : Nat) (prog : List Bytes) (s : St) (id : Bytes) (e : Err),
+    deleteA σ n prog s id = .error e → e = .notFound ∨ e = .other ∨ e = .diverge := by
+  intro n
+  induction n with
+  | zero => intro prog s id e h; simp only [deleteA] at h; cases h; exact Or.inr (Or.inr rfl)
+  | succ n ih =>
+    intro prog s id e h
+    have hpass : ∀ st, passA σ (deleteA σ n) prog id st = .error e → e = .notFound ∨ e = .other ∨ e = .diverge := by
+      intro st hp
+      rcases passA_error hp with h1 | ⟨st', x, h1⟩
+      · exact Or.inl h1
+      · exact ih _ _ _ _ h1
+    unfold deleteA at h
+    split at h
+    · split at h
+      · split at h
+        · split at h
+          · cases h
+          · cases h; exact Or.inr (Or.inl rfl)
+        · next e' hF => cases h; exact hpass _ hF
+      · next e' h0 =>
+        cases h
+        split at h0
+        · exact hpass _ h0
+        · cases h0
+    · cases h; exact Or.inl rfl
+
 /-- a reference-exists refusal has a reason: some entity refers to `b` through `owner`, or — restrict
     variant — through `dep` -/
 theorem deleteB_refExists_inv {σ : Schema} {s : St} {b : Bytes} (hI : Inv σ s)
@@ -169,12 +248,8 @@ theorem deleteB_refExists_inv {σ : Schema} {s : St} {b : Bytes} (hI : Inv σ s)
     simp only [beforeDeleteB] at hr
     split at hr
     · exfalso
-      rcases cascade_progress (f := (·.dep)) (id := b) (skip := []) (Q := none')
-        (fun st x a _ c => deleteA_progress σ (fuelOf s) [] st x (GInv.ofInv a) (by simp) c)
-        (fun st x st' a c => (deleteA_inv σ (fuelOf s) none' [] st x st' a (fun _ h => by cases h) c).1)
-        (referrers st (·.dep) b) st hst with ⟨st', h'⟩ | h'
-      · rw [h'] at hr; cases hr
-      · rw [h'] at hr; cases hr
+      obtain ⟨st', x, hx⟩ := cascadeOver_error _ st hr
+      rcases deleteA_error σ _ _ _ _ _ hx with h' | h' | h' <;> cases h'
     · next hnc =>
       split at hr
       · next hne =>
